@@ -20,13 +20,18 @@ FUNCTIONS = ["trappist_core.trappist", "trappist_core._create_clingo_constraints
              "petri_net_translation.extract_source_variables"]
 
 
-def decide(names, trans, problem, ensure, avoid, srcs, answers, label):
+def decide(names, trans, problem, ensure, avoid, srcs, answers, label, reverse=False):
     A = {(nm, b): z3.Bool(f"al_{nm}_{b}") for nm in names for b in (0, 1)}
     s = z3.Solver()
     s.set("timeout", 120000)
     s.add([z3.Or(A[(nm, 0)], A[(nm, 1)]) for nm in names])
     for pre, ch, b in trans:
-        s.add(z3.Implies(z3.And([A[(k, v)] for k, v in pre.items()]), A[(ch, b)]))
+        if not reverse:
+            s.add(z3.Implies(z3.And([A[(k, v)] for k, v in pre.items()]), A[(ch, b)]))
+        else:
+            # time reversal: nothing ENTERS the space - if the state reached by the transition can lie in M (its other
+            # preconditions and the produced value are allowed) then the state it came from lies in M as well
+            s.add(z3.Implies(z3.And([A[(k, v)] for k, v in pre.items() if k != ch] + [A[(ch, b)]]), A[(ch, 1 - b)]))
     inside = lambda T: z3.And([z3.Not(A[(nm, 1 - b)]) for nm, b in T.items()]) if T else z3.BoolVal(True)      # M inside T
     contains = lambda T: z3.And([A[(nm, b)] for nm in names for b in (0, 1) if T.get(nm, b) == b])                 # M contains T
     fixed = lambda nm: z3.Not(z3.And(A[(nm, 0)], A[(nm, 1)]))
@@ -44,7 +49,9 @@ def decide(names, trans, problem, ensure, avoid, srcs, answers, label):
 
     def is_cand(T):
         ok = lambda k, v: T.get(k, v) == v
-        if not all(not all(ok(k, v) for k, v in pre.items()) or ok(ch, b) for pre, ch, b in trans):
+        if not reverse and not all(not all(ok(k, v) for k, v in pre.items()) or ok(ch, b) for pre, ch, b in trans):
+            return False
+        if reverse and not all(not (all(ok(k, v) for k, v in pre.items() if k != ch) and ok(ch, b)) or ok(ch, 1 - b) for pre, ch, b in trans):
             return False
         if not all(T.get(k) == v for k, v in ensure.items()):
             return False
@@ -92,7 +99,7 @@ def decide(names, trans, problem, ensure, avoid, srcs, answers, label):
     return q, fails
 
 
-def check_model(path, selftest=False, max_calls=12):
+def check_model(path, selftest=False, max_calls=14):
     import biobalm
     from biobalm.trappist_core import trappist
     from biobalm.petri_net_translation import extract_source_variables
@@ -108,8 +115,8 @@ def check_model(path, selftest=False, max_calls=12):
     sd.expand_bfs(size_limit=3)
     ensures = [{}] + [dict(sd.node_data(i)["space"]) for i in list(sd.node_ids())[1:3]]
     fails, q, calls = [], 0, 0
-    for ens in ensures:
-        for problem in ("min", "max", "fix"):
+    for ens, problem, reverse in [(e, p_, False) for e in ensures for p_ in ("min", "max", "fix")] + [({}, "min", True), ({}, "max", True)]:
+        if True:
             prev = []
             for k in range(3):
                 if calls >= max_calls:
@@ -117,14 +124,16 @@ def check_model(path, selftest=False, max_calls=12):
                 avoid = [dict(a) for a in prev[:k]]
                 if k > 0 and len(prev) < k:
                     break
-                ans = [dict(x) for x in trappist(pn, problem=problem, ensure_subspace=dict(ens), avoid_subspaces=avoid, solution_limit=400)]
+                if reverse and k > 0:
+                    break
+                ans = [dict(x) for x in trappist(pn, problem=problem, reverse_time=reverse, ensure_subspace=dict(ens), avoid_subspaces=avoid, solution_limit=400)]
                 calls += 1
                 if len(ans) >= 400:
                     break       # cut off by the limit: only soundness could be claimed; skipped
                 if k == 0:
                     prev = [a for a in ans if a]       # an empty avoided space is not a meaningful argument
-                label = f"{label0}: trappist({problem}, ensure={len(ens)} fixed, avoid={len(avoid)})"
-                qq, ff = decide(names, trans, problem, ens, avoid, srcs, ans, label)
+                label = f"{label0}: trappist({problem}{', reverse_time' if reverse else ''}, ensure={len(ens)} fixed, avoid={len(avoid)})"
+                qq, ff = decide(names, trans, problem, ens, avoid, [] if reverse else srcs, ans, label, reverse=reverse)
                 q += qq
                 fails += ff
     if selftest:
